@@ -1,6 +1,6 @@
 use itertools::Itertools;
 
-use crate::ir::decl::{DeclKind, Module};
+use crate::ir::decl::{Decl, DeclKind, Module};
 use crate::ir::pl;
 use crate::ir::pl::PlFold;
 use crate::pr::{Ty, TyKind, TyTupleField};
@@ -289,7 +289,12 @@ impl Resolver<'_> {
             return vec![wildcard_field];
         }
 
-        for (name, decl) in module.names.iter().sorted_by_key(|(_, d)| d.order) {
+        // Entries of equal `order` (a column and an input can tie) come out of the map in hash order:
+        // put the column first, as it precedes the input's columns in the frame, then go by name.
+        let key = |(name, d): &(&String, &Decl)| {
+            (d.order, matches!(d.kind, DeclKind::Module(_)), (*name).clone())
+        };
+        for (name, decl) in module.names.iter().sorted_by(|a, b| key(a).cmp(&key(b))) {
             res.push(match &decl.kind {
                 DeclKind::Module(submodule) => {
                     let prefix = [prefix.to_vec(), vec![name]].concat();
